@@ -3,6 +3,7 @@ package main
 import (
 	"bytes"
 	"encoding/json"
+	"fmt"
 	"math/rand"
 	"os"
 	"os/exec"
@@ -58,8 +59,17 @@ func (cliStream) Generate(rng *rand.Rand, tier string, emit func(Case)) {
 				label = l
 			}
 		}
-		emit(Case{"op": "validatetool", "doc": docToProto(d), "label": label, "schema": []string{"builtin", "none"}[rng.Intn(4)/3],
-			"yaml": rng.Intn(2) == 0})
+		docs := []any{map[string]any{"doc": docToProto(d), "yaml": rng.Intn(2) == 0}}
+		// one to three documents per invocation, valid and invalid in any order; sometimes on standard input
+		for k := rng.Intn(3); k > 0; k-- {
+			d2 := g.spec()
+			if rng.Intn(2) == 0 {
+				g.schemaMutate(d2, schemaMutations[rng.Intn(len(schemaMutations))])
+			}
+			docs = append(docs, map[string]any{"doc": docToProto(d2), "yaml": rng.Intn(2) == 0})
+		}
+		emit(Case{"op": "validatetool", "docs": docs, "label": label, "schema": []string{"builtin", "none"}[rng.Intn(4)/3],
+			"stdin": len(docs) == 1 && rng.Intn(4) == 0})
 	}
 }
 
@@ -203,18 +213,42 @@ func (cliStream) Execute(c Case) {
 		dir := filepath.Join(os.TempDir(), "cdi-verif-cli-validate")
 		_ = os.MkdirAll(dir, 0o755)
 		defer os.RemoveAll(dir)
-		doc := protoToDoc(c["doc"])
-		path := filepath.Join(dir, "doc.json")
-		text := renderJSON(doc)
-		if y, _ := c["yaml"].(bool); y {
-			path, text = filepath.Join(dir, "doc.yaml"), renderYAML(doc)
-		}
-		_ = os.WriteFile(path, text, 0o644)
 		sname, _ := c["schema"].(string)
 		s, err := schema.Load(sname)
-		lib["schemaok"] = err == nil && s.ValidateFile(path) == nil
-		_, exit := runTool(nil, "validate", "--schema", sname, path)
-		obs["exit"] = exit
+		docs, _ := c["docs"].([]any)
+		stdin, _ := c["stdin"].(bool)
+		var paths, names []string
+		var oks []any
+		var input []byte
+		for i, e := range docs {
+			m, _ := e.(map[string]any)
+			doc := protoToDoc(m["doc"])
+			path := filepath.Join(dir, fmt.Sprintf("doc%d.json", i))
+			text := renderJSON(doc)
+			if y, _ := m["yaml"].(bool); y {
+				path, text = filepath.Join(dir, fmt.Sprintf("doc%d.yaml", i)), renderYAML(doc)
+			}
+			_ = os.WriteFile(path, text, 0o644)
+			if stdin {
+				input = text
+				oks = append(oks, err == nil && s.ValidateData(text) == nil)
+				names = append(names, "<stdin>")
+				continue
+			}
+			oks = append(oks, err == nil && s.ValidateFile(path) == nil)
+			paths = append(paths, path)
+			names = append(names, path)
+		}
+		lib["schemaok"], lib["names"] = oks, strs2any(names)
+		lines, exit := runTool(input, "validate", append([]string{"--schema", sname}, paths...)...)
+		// the tool prints a header line naming the schema first
+		var body []string
+		for _, l := range lines {
+			if !strings.HasPrefix(l, "Validating against") {
+				body = append(body, l)
+			}
+		}
+		obs["exit"], obs["stdout"] = exit, strs2any(body)
 	}
 }
 
